@@ -155,6 +155,53 @@ def syscall_crashes(ctx, quick):
         stats["by_class"].get("symlink", 0) >= 3 and stats["by_class"].get("rename", 0) >= 3)
     return stats
 
+def env_reference_restart(ctx):
+    """An invocation file that refers to environment variables ($NAME, ${NAME},
+    here in a comment and in an argument): mrp is stopped (SIGTERM) while the
+    first stage runs and restarted with the very same command and file."""
+    import json
+    import signal
+    import subprocess
+    import time
+    src = os.path.join(lib.VERIF, "corpus", "c05_postprocess")
+    d = os.path.join(ctx.scratch, "envref")
+    os.makedirs(d, exist_ok=True)
+    text = open(os.path.join(src, "pipeline.mro")).read().replace("@DIR@", src)
+    text = "# started by $C05_WHO in ${C05_WHERE}\n" + text.replace("seed = 7", "seed = $C05_SEED")
+    if "$C05_SEED" not in text:
+        text = text.replace("call TOP(", "# seed $C05_SEED\ncall TOP(")
+    open(os.path.join(d, "pipeline.mro"), "w").write(text)
+    env = dict(os.environ, MROPATH=d, C05PP_LOG=os.path.join(d, "runs.log"), C05_WHO="someone", C05_WHERE="/some/where", C05_SEED="7")
+    cmd = [os.path.join(ctx.mart, "bin", "mrp"), "pipeline.mro", "envref", "--localcores=4", "--localmem=4", "--disable-ui"]
+    p = subprocess.Popen(cmd, cwd=d, env=env, stdout=subprocess.PIPE, stderr=subprocess.STDOUT, text=True, start_new_session=True)
+    t0 = time.time()
+    while time.time() - t0 < 20 and not os.path.exists(os.path.join(d, "envref", "_invocation")):
+        time.sleep(0.02)
+    time.sleep(0.15)
+    try:
+        os.killpg(p.pid, signal.SIGTERM)
+    except OSError:
+        pass
+    try:
+        out0 = p.communicate(timeout=60)[0]
+    except subprocess.TimeoutExpired:
+        os.killpg(p.pid, signal.SIGKILL)
+        out0 = p.communicate()[0]
+    try:
+        os.remove(os.path.join(d, "envref", "_lock"))
+    except OSError:
+        pass
+    p1 = subprocess.run(cmd, cwd=d, env=env, capture_output=True, text=True, timeout=120)
+    ok = p1.returncode == 0 and os.path.exists(os.path.join(d, "envref", "TOP", "fork0", "_outs"))
+    if not ok:
+        ctx.fail("restart_refused_invocation_with_environment_reference" if "different invocation" in (p1.stdout + p1.stderr) else "restart_does_not_complete",
+                 "corpus/c05_postprocess with '$NAME' references in the invocation file: restart with the same file and environment exits %d" % p1.returncode,
+                 {"invocation_file_head": text[:300], "environment": {"C05_WHO": "someone", "C05_WHERE": "/some/where", "C05_SEED": "7"},
+                  "first_run_exit": p.returncode, "first_run_tail": out0[-300:], "restart_exit": p1.returncode, "restart_tail": (p1.stdout + p1.stderr)[-500:]})
+    ctx.oblige("restart of a pipestance whose invocation file refers to environment variables ran", True)
+    return {"first_exit": p.returncode, "restart_exit": p1.returncode}
+
+
 MODES = ("killgroup", "killgroup", "kill", "term", "int")
 
 
@@ -255,6 +302,7 @@ def check(ctx, args):
                      {"replay_dir": os.path.dirname(rp)})
     ctx.oblige("crash-point enumeration ran (%d scenarios, %d interrupted a live mrp)" % (len(scen), nint), nint > 0 and okc)
     sysstats = syscall_crashes(ctx, quick)
+    sysstats["environment_reference_restart"] = env_reference_restart(ctx)
     ctx.samples = [{k: v for k, v in s.items() if k not in ("res", "dir")} for s in scen[:5]]
     ctx.coverage.update({
         "evaluations": len(scen), "distinct_nontrivial": nint,
